@@ -1,0 +1,32 @@
+//go:build verif
+
+// Contracts for the tvc verifier (/verif). Comment-only: with the `verif` tag off this file does not exist,
+// with it on it adds no code. Syntax: /verif/DESIGN.md appendix A.
+
+package eni
+
+//@ for C01
+
+//@ # ---- the owner field of a pool address: cleared only by its owner, written only over "no owner" or the same pod ----
+//@ func IP.Release
+//@   requires ip != nil
+//@   modifies IP.podID
+//@   ensures old(ip.podID) == podID ==> ip.podID == ""
+//@   ensures old(ip.podID) != podID ==> ip.podID == old(ip.podID)
+//@   ensures forall q *IP :: q != ip ==> q.podID == old(q.podID)
+
+//@ # the lookup never returns an address held by another pod: the pod's own address, else a valid unowned one
+//@ func Set.PeekAvailable
+//@   modifies nothing
+//@   ensures result == nil || (podID != "" && result.podID == podID) || (result.status == 1 && result.podID == "")
+
+//@ func Local.commit
+//@   requires l != nil && l.eni != nil
+//@   requires ipv4 == nil || ipv4.podID == "" || ipv4.podID == podID
+//@   requires ipv6 == nil || ipv6.podID == "" || ipv6.podID == podID
+
+//@ guard call IP.Allocate in commit: recv.podID == "" || recv.podID == arg0
+//@ guard call IP.Allocate in Allocate: recv.podID == "" || recv.podID == arg0
+
+//@ # the fast path marks the owner under the lock, before the reply goroutine is spawned: nobody can be offered that address in between
+//@ guard go Local.Allocate$1 in Allocate: (ipv4 == nil || ipv4.podID == cni.PodID) && (ipv6 == nil || ipv6.podID == cni.PodID)
